@@ -233,7 +233,10 @@ pub fn run_c09_live(rep: &mut Report, thorough: bool) {
                 _ => Mode::Interrupting(1 + rng.usize_below(5000)),
             };
             let fault = if k % 4 == 3 { Some((rng.usize_below(70), if rng.chance(1, 2) { Fault::Error } else { Fault::PartialThenError })) } else { None };
-            let mut d = Dest::new(initial.clone(), start, mode.clone(), rng.next());
+            // the destination may be positioned far into a huge file: `start` and the pre-existing
+            // content are then relative to an origin beyond 4 GiB (positions need more than 32 bits)
+            let origin: u64 = *rng.pick(&[0u64, 0, 0, 1 << 32, (1 << 32) + 512, (8u64 << 30) + 4103, (1 << 32) - 100]);
+            let mut d = Dest::new_at(origin, initial.clone(), origin + start, mode.clone(), rng.next());
             if let Some((at, f)) = fault {
                 d.set_fault(at, f);
             }
@@ -242,7 +245,13 @@ pub fn run_c09_live(rep: &mut Report, thorough: bool) {
                 let _g = dump::DUMP_LOCK.lock().unwrap_or_else(|e| e.into_inner());
                 dump::dump_into(&o, &mut d)
             };
-            let case = json!({"opts": o.describe(), "start": start, "preexisting": init_len, "mode": format!("{mode:?}"), "fault": format!("{fault:?}")});
+            let case = json!({"opts": o.describe(), "origin": origin, "start": start, "preexisting": init_len, "mode": format!("{mode:?}"), "fault": format!("{fault:?}")});
+            if origin > 0 {
+                rep.count("live_dumps_positioned_beyond_4GiB", (origin + start >= 1 << 32) as u64);
+            }
+            if view.stores_below_origin() > 0 {
+                rep.violation("C09 live bytes far before the starting position were written", json!({"case": case, "stores_below_the_window": view.stores_below_origin()}));
+            }
             let data = view.data();
             let s = start as usize;
             rep.count("live_dumps_into_hostile_destinations", 1);
